@@ -2,6 +2,7 @@ package main
 
 import (
 	"fmt"
+	"os"
 	"go/token"
 	"go/types"
 	"sort"
@@ -232,6 +233,9 @@ func (a *Act) analyse() {
 }
 
 var debugReachAll bool
+
+// elementwiseFrame states loop frames of nested heaps element by element instead of row by row
+var elementwiseFrame = os.Getenv("GOVC_ELEMFRAME") == "1"
 
 func firstPos(b *ssa.BasicBlock) token.Pos {
 	for _, in := range b.Instrs {
@@ -534,7 +538,7 @@ func (a *Act) enterLoop(li *loopInfo, st *State) *State {
 		for _, r := range refs {
 			conds = append(conds, not(app("=", "r!f", r)))
 		}
-		if strings.HasPrefix(string(s), "(Array Int (Array ") {
+		if elementwiseFrame && strings.HasPrefix(string(s), "(Array Int (Array ") {
 			// nested heap: state the frame element by element (no equalities between rows,
 			// which would make the solver reason by array extensionality)
 			ks := "Int"
